@@ -580,6 +580,28 @@ pub fn run_seq(cfg: &Config, limit: usize, extra_next: usize) -> Result<Seq, Fai
     Ok(out)
 }
 
+/// like `run_seq`, over an iterator that already exists (built earlier, possibly with other
+/// iterators alive beside it)
+pub fn drain_seq(it: &mut <FlopExhaustiveEvaluator as IntoIterator>::IntoIter, tr: &Translator, limit: usize, extra_next: usize, what: &str) -> Result<Seq, Fail> {
+    let mut out = Vec::new();
+    while let Some(s) = it.next() {
+        let (t, r, fp) = tr.light(&s);
+        if t == 255 || r == 255 || t >= r {
+            return Err(Fail::new("turn-river-order", format!("{}: showdown board {:?}: turn/river deck positions are ({}, {}), expected turn < river among the unseen cards", what, s.board(), t, r)));
+        }
+        if out.len() >= limit {
+            return Err(Fail::new("over-production", format!("{} yielded more than {} showdowns, more than the window holds", what, limit)));
+        }
+        out.push((pos_index(t, r), fp));
+    }
+    for k in 0..extra_next {
+        if it.next().is_some() {
+            return Err(Fail::new("not-exhausted", format!("{} returned a showdown on call {} after it had returned None", what, k + 1)));
+        }
+    }
+    Ok(out)
+}
+
 /// n single-combo players holding pairwise disjoint cards, except that seat j shares exactly one
 /// card with seat i (i < j): no deal is legal.  With `also_clean`, a second combo is added to seat j
 /// that is disjoint from everybody, so that legal deals exist and only the colliding combo is blocked.
